@@ -60,7 +60,7 @@ func TestC13(t *testing.T) {
 	var gm gaugeMax
 	http2.VerifSetGaugeHook(gm.observe)
 	defer http2.VerifSetGaugeHook(nil)
-	attacks := []string{"rapid-reset", "half-open", "priority-idle", "continuation-small-fields", "continuation-empty", "continuation-endless-literal", "body-over-limit-undeclared", "body-over-limit-declared", "content-length-lie", "ping-flood", "settings-flood", "ping-flood-no-read", "mixed", "self-reset-slots", "body-limit-boundary", "continuation-endless-literal-refused"}
+	attacks := []string{"rapid-reset", "half-open", "priority-idle", "continuation-small-fields", "continuation-empty", "continuation-endless-literal", "body-over-limit-undeclared", "body-over-limit-declared", "content-length-lie", "ping-flood", "settings-flood", "ping-flood-no-read", "mixed", "self-reset-slots", "body-limit-boundary", "continuation-endless-literal-refused", "request-timeout-slots"}
 	n := r.Pick(160, 3000)
 	for i := 0; i < n; i++ {
 		id := fmt.Sprintf("a%d", i)
@@ -141,6 +141,9 @@ func c13Attack(r *vf.Run, t *testing.T, id string, rng *rand.Rand, gm *gaugeMax,
 		lr := rand.New(rand.NewSource(seed))
 		gm.take()
 		so := rt.ServerOpts{MaxConcurrentStreams: m, MaxRequestBodySize: bodyLimit, MaxHeaderListSize: hdrLimit, BufToPeer: 1 << 20}
+		if attack == "request-timeout-slots" {
+			so.ReadTimeout = 2 * time.Second
+		}
 		e := rt.NewServerEnv(id, so)
 		gate := e.H.NewGate()
 		e.H.SetDefault(&rt.RespPlan{Status: 200, Body: []byte("ok"), Gate: gate})
@@ -233,6 +236,27 @@ func c13Attack(r *vf.Run, t *testing.T, id string, rng *rand.Rand, gm *gaugeMax,
 					}
 				}
 				next += 2
+			}
+		case "request-timeout-slots":
+			// rounds of: as many complete requests as the peer can get in (handlers parked), then the server's own
+			// request timeout passes and it resets the streams; their handlers still run and still hold their slots,
+			// so the next round must be refused; half-open streams time out along the way
+			for round := 0; round < 3+frames/100; round++ {
+				var b []byte
+				for i := 0; i < m+2; i++ {
+					b = append(b, hdr(next, true)...)
+					next += 2
+				}
+				for i := 0; i < 3; i++ {
+					b = append(b, hdr(next, false)...)
+					next += 2
+				}
+				if !send(b) {
+					break
+				}
+				rt.Wait()
+				time.Sleep(2*time.Second + time.Duration(lr.Intn(1500))*time.Millisecond)
+				rt.Wait()
 			}
 		case "self-reset-slots":
 			// complete requests whose handlers are parked; the peer then makes the server reset each stream itself
